@@ -89,7 +89,21 @@ func (vc *VC) call(call ssa.CallInstruction) {
 	f := vc.v(c.Value)
 	vc.check("nil-func", pos, "", Ne(f, "0"), sp)
 	vc.havoc(vc.callModSet(call))
-	vc.havocResults(call)
+	rs := vc.havocResults(call)
+	// a call of a function-valued parameter under a `callback` contract
+	if p, ok := c.Value.(*ssa.Parameter); ok && vc.con != nil && len(vc.con.Callbacks[p.Name()]) > 0 && len(rs) == 1 {
+		ce := vc.envAt(vc.blk, vc.cur, nil)
+		ce.result = []cval{{t: rs[0], typ: call.Value().Type()}}
+		for _, cl := range vc.con.Callbacks[p.Name()] {
+			ce.err = nil
+			t := ce.evalTop(cl.Expr, true)
+			if ce.err != nil {
+				vc.unsupp("callback %q: %v", cl.Text, ce.err)
+				continue
+			}
+			vc.gfact(t.t)
+		}
+	}
 }
 
 func (vc *VC) staticCall(call ssa.CallInstruction, callee *ssa.Function, bindings []ssa.Value) {
@@ -205,6 +219,9 @@ func (vc *VC) staticCall(call ssa.CallInstruction, callee *ssa.Function, binding
 		vc.mapOrderReportCheck(call, callee)
 		name := vc.e.fname(callee)
 		con := vc.e.cs.Funcs[name]
+		if con != nil && len(con.Callbacks) > 0 {
+			vc.callbackCheck(call, callee, con)
+		}
 		if con != nil && con.PrintfLike && len(c.Args) >= 2 {
 			na := len(c.Args)
 			// forwarding one's own (format, args) is covered by the caller's own call sites
@@ -622,7 +639,17 @@ func (vc *VC) libCall(call ssa.CallInstruction, callee *ssa.Function, args []Ter
 			vc.gfact(keepCR)
 		}
 		return true
-	case "strings.Join", "strings.Replace", "strings.Title", "strings.ToUpper", "strings.Map":
+	case "strings.Join":
+		// the result has no line break when neither the separator nor any element has one
+		r := strRes()
+		if st, ok := c.Args[0].Type().Underlying().(*types.Slice); ok {
+			n, srt := vc.e.elemArr(st.Elem())
+			E := vc.arrCur(n, srt)
+			vc.gfact(fmt.Sprintf("(=> (and (nlfree %s) (forall ((j Int)) (=> (and (<= 0 j) (< j (s_len %s))) (nlfree %s)))) (nlfree %s))",
+				args[1], args[0], vc.eltTerm(st.Elem(), E, args[0], "j"), r))
+		}
+		return true
+	case "strings.Replace", "strings.Title", "strings.ToUpper", "strings.Map":
 		strRes()
 		return true
 	case "strings.Split", "strings.SplitN", "strings.Fields":
@@ -639,6 +666,15 @@ func (vc *VC) libCall(call ssa.CallInstruction, callee *ssa.Function, args []Ter
 		r := strRes()
 		vc.gfact(Ne(r, "0"))
 		return true
+	case "strconv.AppendQuote", "strconv.AppendQuoteRune", "strconv.AppendQuoteToASCII", "strconv.AppendInt":
+		// quoting escapes control characters: what is appended has no line break (bytesnl: "these bytes
+		// contain a line break", a property of the slice value as it is handed on at once)
+		r := strRes()
+		bn := sym("spec:bytesnl")
+		vc.declareFun(bn, []string{SSlice}, "Bool")
+		vc.gfact(Imp(Or(Eq(sx("s_len", args[0]), "0"), Not(sx(bn, args[0]))), Not(sx(bn, r))))
+		vc.gfact(Ge(sx("s_len", r), sx("s_len", args[0])))
+		return true
 	case "strconv.Quote", "strconv.QuoteRune", "strconv.QuoteToASCII":
 		r := strRes()
 		vc.gfact(And(sx("nlfree", r), Ge(sx("slen", r), "2")))
@@ -648,7 +684,12 @@ func (vc *VC) libCall(call ssa.CallInstruction, callee *ssa.Function, args []Ter
 		vc.gfact(And(sx("nlfree", r), Ge(sx("slen", r), "1")))
 		return true
 	case "strconv.ParseFloat", "strconv.ParseInt", "strconv.Atoi", "strconv.ParseUint", "strconv.ParseBool", "strconv.Unquote":
-		vc.havocResults(call)
+		r := vc.havocResults(call)
+		if len(r) == 2 && name != "strconv.Unquote" {
+			// *strconv.NumError renders as `strconv.F: parsing "<quoted input>": <fixed reason>`
+			vc.gfact(sx("nlfree", sx("errtext", r[1])))
+			vc.usedTrusted["errors of strconv.Parse* / Atoi quote their input (no raw line break in their text)"] = true
+		}
 		return true
 	case "math.IsNaN":
 		vc.setVal(v, sx("flt_isnan", args[0]))
@@ -752,6 +793,9 @@ func (vc *VC) libCall(call ssa.CallInstruction, callee *ssa.Function, args []Ter
 		vc.havoc(vc.callModSet(call))
 		r := vc.havocResults(call)
 		vc.gfact(Eq(Ne(sx("i_tag", r[0]), "0"), sx(fn, args[0])))
+		// *json.SyntaxError / *json.UnmarshalTypeError name an offending character quoted ('\n') or a Go type
+		vc.gfact(sx("nlfree", sx("errtext", r[0])))
+		vc.usedTrusted["errors of json.Unmarshal, url.Parse and filepath.Match quote what they echo (no raw line break in their text)"] = true
 		return true
 	case "(*yaml.Node).Decode":
 		// decoding a YAML node into a struct with `yaml:"key"` tags: what ends up in a field is a function of
@@ -817,6 +861,14 @@ func (vc *VC) libCall(call ssa.CallInstruction, callee *ssa.Function, args []Ter
 		fn := sym("spec:isabs")
 		vc.declareFun(fn, []string{SStr}, "Bool")
 		vc.setVal(v, sx(fn, args[0]))
+		return true
+	case "url.Parse", "filepath.Match", "path.Match":
+		// *url.Error renders as `parse "<quoted url>": <reason>`; Match only fails with ErrBadPattern
+		r := vc.havocResults(call)
+		if len(r) == 2 {
+			vc.gfact(sx("nlfree", sx("errtext", r[1])))
+			vc.usedTrusted["errors of json.Unmarshal, url.Parse and filepath.Match quote what they echo (no raw line break in their text)"] = true
+		}
 		return true
 	case "os.IsPathSeparator":
 		// '/' (on Windows also '\\', which never separates path elements on the platforms the proofs speak about)
@@ -955,6 +1007,33 @@ func (vc *VC) libCall(call ssa.CallInstruction, callee *ssa.Function, args []Ter
 	case strings.HasPrefix(name, "(*strings.Builder)."), strings.HasPrefix(name, "(*bytes.Buffer)."):
 		rs := vc.havocResults(call)
 		m := name[strings.LastIndex(name, ".")+1:]
+		{
+			// the line-break bit of the builder (see builderArr)
+			B := vc.arrCur(builderArr, builderSort)
+			has := Sel(B, args[0])
+			set := func(t Term) { vc.setArr(builderArr, builderSort, Sto(B, args[0], t)) }
+			switch m {
+			case "WriteString":
+				set(Or(has, Not(sx("nlfree", args[1]))))
+			case "WriteByte":
+				set(Or(has, Eq(args[1], "10"), Eq(args[1], "13")))
+			case "WriteRune":
+				set(Or(has, Eq(args[1], "10"), Eq(args[1], "13")))
+			case "Write":
+				bn := sym("spec:bytesnl")
+				vc.declareFun(bn, []string{SSlice}, "Bool")
+				set(Or(has, sx(bn, args[1])))
+			case "Reset":
+				set("false")
+			case "String":
+				if len(rs) == 1 {
+					vc.gfact(Eq(sx("nlfree", rs[0]), Not(has)))
+				}
+			case "Len", "Cap", "Grow":
+			default:
+				set(vc.fresh("hasnl", "Bool"))
+			}
+		}
 		if m == "Grow" {
 			vc.check("lib-pre", call.Pos(), "Grow: n >= 0", Ge(args[1], "0"), sp)
 		}
@@ -1549,4 +1628,59 @@ func (vc *VC) mapOrderCheck(call ssa.CallInstruction) {
 		cond = "true"
 	}
 	vc.check("map-order", call.Pos(), "", cond, []string{"C02"})
+}
+
+// callbackCheck: the callee calls its function-valued parameter P under `callback P: ensures E`. The function
+// handed over here must guarantee E: it is a function (or closure) of the package whose own contract states
+// the same ensures clause (verified with that function), or the caller's own parameter under the same clause.
+func (vc *VC) callbackCheck(call ssa.CallInstruction, callee *ssa.Function, con *Contract) {
+	c := call.Common()
+	for i, p := range callee.Params {
+		cls := con.Callbacks[p.Name()]
+		if len(cls) == 0 || i >= len(c.Args) {
+			continue
+		}
+		a := c.Args[i]
+		for {
+			if ct, ok := a.(*ssa.ChangeType); ok {
+				a = ct.X
+				continue
+			}
+			break
+		}
+		var g *ssa.Function
+		switch x := a.(type) {
+		case *ssa.Function:
+			g = x
+		case *ssa.MakeClosure:
+			g, _ = x.Fn.(*ssa.Function)
+		}
+		for _, cl := range cls {
+			ok := false
+			if g != nil {
+				if gc := vc.e.cs.Funcs[vc.e.fname(g)]; gc != nil {
+					for _, e := range gc.Ensures {
+						if e.Text == cl.Text && !e.InTrustedBlock {
+							ok = true
+						}
+					}
+				}
+			} else if pp, isParam := a.(*ssa.Parameter); isParam && vc.con != nil {
+				for _, e := range vc.con.Callbacks[pp.Name()] {
+					if e.Text == cl.Text {
+						ok = true
+					}
+				}
+			}
+			cond := Term("false")
+			if ok {
+				cond = "true"
+			}
+			pr := cl.Props
+			if len(pr) == 0 {
+				pr = con.Props
+			}
+			vc.check("callback", call.Pos(), p.Name()+": "+cl.Text, cond, pr)
+		}
+	}
 }
